@@ -11,6 +11,7 @@ import (
 	"encoding/hex"
 	"encoding/json"
 	"fmt"
+	nodesTypes "github.com/pokt-network/pocket-core/x/nodes/types"
 	"golang.org/x/crypto/sha3"
 	"io"
 	"math"
@@ -270,7 +271,7 @@ func (s *Sim) checkDispatch(header pc.SessionHeader, appAddr string, disp *pc.Di
 	}
 	count, _ := start.ParamInt("pocketcore/SessionNodeCount")
 	if err != nil || disp == nil {
-		if err != nil && strings.Contains(err.Error(), "insufficient") {
+		if err != nil && (strings.Contains(err.Error(), "insufficient") || strings.Contains(err.Error(), "less than the minimum session nodes")) {
 			// fails only when fewer eligible nodes exist
 			eligible := 0
 			maxChains, _ := start.ParamInt("pos/MaximumChains")
@@ -347,6 +348,18 @@ func (s *Sim) checkDispatch(header pc.SessionHeader, appAddr string, disp *pc.Di
 		s.violate("C33", "session-not-deterministic", "dispatch", fmt.Sprintf("height %d: session %s/%s@%d answered %s earlier and %s now", h, appAddr, header.Chain, header.SessionBlockHeight, prev, list))
 	}
 	s.sessions[key] = list
+	if s.members == nil {
+		s.members = map[string]map[string]bool{}
+		s.memberHeaders = map[string]pc.SessionHeader{}
+	}
+	hk := header.HashString()
+	if s.members[hk] == nil {
+		s.members[hk] = map[string]bool{}
+		s.memberHeaders[hk] = header
+	}
+	for _, a := range addrs {
+		s.members[hk][a] = true
+	}
 	s.res.Probe("dispatch_ok")
 	s.res.Case(fmt.Sprintf("dispatch/nodes=%d/eligible=%d", len(nodes), len(start.Validators)))
 }
@@ -389,8 +402,86 @@ func (s *Sim) autoClaims(st *Step) {
 	if strings.HasPrefix(st.Action, "forge:") {
 		s.forgePending(strings.TrimPrefix(st.Action, "forge:"), before)
 	}
+	if st.Action == "outsider-claim" {
+		s.outsiderClaims()
+	}
 	s.res.Fault("auto_claim_proof_pass")
 	s.res.ProbeN("own_txs_broadcast", len(n.Tm.Mempool)-before)
+}
+
+// outsiderClaims (C32): a servicer of this process that is staked for the chain but was NOT
+// selected into a session claims relays for it (a made-up root and count). The claim must be
+// refused whatever this node's caches hold.
+func (s *Sim) outsiderClaims() {
+	if s.committedView == nil || len(s.members) == 0 {
+		return
+	}
+	h := s.drv.Height
+	hks := make([]string, 0, len(s.members))
+	for k := range s.members {
+		hks = append(hks, k)
+	}
+	sort.Strings(hks)
+	made := 0
+	for _, hk := range hks {
+		header := s.memberHeaders[hk]
+		start := s.viewAt(header.SessionBlockHeight)
+		if start == nil || made >= 2 {
+			continue
+		}
+		bps, _ := start.ParamInt("pos/BlocksPerSession")
+		window, _ := start.ParamInt("pocketcore/ClaimSubmissionWindow")
+		if h+1 <= header.SessionBlockHeight+bps-1 || h+1 > header.SessionBlockHeight+window*bps {
+			continue // not claimable in the next block
+		}
+		outsider := -1
+		for _, a := range sortedAddrs(start.Validators) {
+			v := start.Validators[a]
+			if v.Status != sdk.Staked || v.Jailed || !contains(v.Chains, header.Chain) || s.members[hk][a] {
+				continue
+			}
+			if _, local := pc.GlobalPocketNodes[a]; !local {
+				continue
+			}
+			if i := s.keyIndexOf(a); i >= 0 {
+				outsider = i
+				break
+			}
+		}
+		if outsider < 0 {
+			continue
+		}
+		minProofs, _ := start.ParamInt("pocketcore/MinimumNumberOfProofs")
+		total := minProofs + 3
+		if total < 6 {
+			total = 6
+		}
+		root := pc.HashRange{Hash: make([]byte, 32), Range: pc.Range{Lower: 0, Upper: 1 << 40}}
+		for i := range root.Hash {
+			root.Hash[i] = byte(i*7 + int(h))
+		}
+		priv := KeyFor(s.cfg.KeySeed, outsider)
+		m := pc.MsgClaim{SessionHeader: header, MerkleRoot: root, TotalProofs: total, FromAddress: sdk.Address(priv.PublicKey().Address()), EvidenceType: pc.RelayEvidence}
+		fee := sdk.NewCoins(sdk.NewCoin(sdk.DefaultStakeDenom, sdk.NewInt(baseFee)))
+		s.relayEntropy++
+		signBytes, serr := auth.StdSignBytes(ChainID, s.relayEntropy, fee, &m, "")
+		if serr != nil {
+			continue
+		}
+		sig, _ := priv.Sign(signBytes)
+		tx := authTypes.NewTx(&m, fee, authTypes.StdSignature{Signature: sig, PublicKey: priv.PublicKey()}, "", s.relayEntropy)
+		bz, eerr := auth.DefaultTxEncoder(app.Codec())(tx, -1)
+		if eerr != nil {
+			continue
+		}
+		s.node.Tm.Mempool = append(s.node.Tm.Mempool, bz)
+		if s.outsider == nil {
+			s.outsider = map[string]bool{}
+		}
+		s.outsider[claimKeyOf(sdk.Address(priv.PublicKey().Address()).String(), header)] = true
+		s.res.Fault("claim_by_node_outside_the_session")
+		made++
+	}
 }
 
 // sweepEvidenceBeforeClaim (C29): for every evidence this servicer is about to claim, every leaf
@@ -530,6 +621,34 @@ func (s *Sim) checkClaimTx(b *blockObs, m pc.MsgClaim, r abci.ResponseDeliverTx,
 	if n, ok := start.Validators[servicer]; !ok || n.Status != sdk.Staked || !contains(n.Chains, m.SessionHeader.Chain) {
 		s.violate("C32", "claim-from-node-outside-session", "claim", fmt.Sprintf("height %d: claim accepted from %s which was not a staked node for chain %s at session height %d", h, servicer, m.SessionHeader.Chain, sh))
 	}
+	if mem, known := s.members[m.SessionHeader.HashString()]; known {
+		// the node list of a session is fixed by (application, chain, session block hash) and the
+		// eligibility of the candidates at the reference height; it is judged only when no candidate's
+		// eligibility changed between the session start and its end, so that every reference height
+		// gives the list the dispatches showed
+		stable := true
+		if end := s.viewAt(sessionEnd); end != nil {
+			for a, sv := range start.Validators {
+				if !contains(sv.Chains, m.SessionHeader.Chain) {
+					continue
+				}
+				ev, ok := end.Validators[a]
+				if !ok || ev.Jailed != sv.Jailed || ev.Status != sv.Status || fmt.Sprint(ev.Chains) != fmt.Sprint(sv.Chains) {
+					stable = false
+				}
+			}
+		} else {
+			stable = false
+		}
+		if !stable {
+			s.res.Probe("claim_membership_not_judged_candidates_changed")
+		} else {
+			s.res.Probe("claim_membership_judged")
+		}
+		if stable && !mem[servicer] {
+			s.violate("C32", "claim-from-node-outside-session", "not-selected", fmt.Sprintf("height %d: claim accepted from %s, which is staked for chain %s but was not among the nodes of session %d (%d nodes known from dispatch)", h, servicer, m.SessionHeader.Chain, sh, len(mem)))
+		}
+	}
 	// ---- C31: the block hash that selects the leaf must not be public when the claim is accepted.
 	// The selecting hash is the LastBlockID of block proofHeight, i.e. the hash of block
 	// proofHeight-1, public from the moment that block is proposed.
@@ -575,6 +694,35 @@ func (s *Sim) checkProofTx(b *blockObs, m pc.MsgProof, r abci.ResponseDeliverTx,
 	burned := minted.IsNegative()
 	s.res.Case(fmt.Sprintf("proof/code=%d/minted=%v", r.Code, minted.IsPositive()))
 	s.res.Tracef("   proof h=%d code=%d minted=%s supply %s -> %s forged=%q inst=%v diff=%d rscal=%v params=%v %v %v %v %v node=%+v", h, r.Code, minted, vb.SupplyAmt, va.SupplyAmt, forged, inst != nil, len(diff), featureOn(codec.RSCALKey, h), vb.Params["pos/ServicerStakeFloorMultiplier"], vb.Params["pos/ServicerStakeWeightMultiplier"], vb.Params["pos/ServicerStakeWeightCeiling"], vb.Params["pos/ServicerStakeFloorMultiplierExponent"], vb.Params["pos/RelaysToTokensMultiplier"], vb.Validators[servicer])
+	// ---- C25: a burn applied while a proof is processed (replay penalty, challenge) removes tokens
+	// from the servicer's stake and burns exactly that much, never more than the stake
+	if pv, ok := vb.Validators[servicer]; ok {
+		nvz, still := va.Validators[servicer]
+		removed := pv.StakedTokens
+		if still {
+			removed = pv.StakedTokens.Sub(nvz.StakedTokens)
+		}
+		if removed.IsPositive() || burned {
+			s.res.Probe("burn_during_proof")
+			poolDelta := va.ModuleBalance(nodesTypes.StakedPoolName).Sub(vb.ModuleBalance(nodesTypes.StakedPoolName))
+			if !minted.Equal(removed.Neg()) || !poolDelta.Equal(removed.Neg()) {
+				s.violate("C25", "burn-vs-removed", "proof-penalty", fmt.Sprintf("height %d: the penalty on %s (stake %s) removed %s from its stake, the node pool changed by %s and the supply by %s", h, servicer, pv.StakedTokens, removed, poolDelta, minted))
+			}
+			if still && nvz.StakedTokens.IsNegative() {
+				s.violate("C25", "slash-exceeds-stake", "proof-penalty", fmt.Sprintf("height %d: node %s stake %s -> %s", h, servicer, pv.StakedTokens, nvz.StakedTokens))
+			}
+			minStake, _ := va.ParamInt("pos/StakeMinimum")
+			if still && featureOn(codec.NonCustodialUpdateKey, h) && nvz.Status == sdk.Staked && nvz.StakedTokens.LT(sdk.NewInt(minStake)) {
+				s.res.Probe("penalty_takes_stake_below_minimum")
+				if !nvz.Jailed || !va.Waiting[servicer] {
+					s.violate("C25", "below-minimum-not-queued", "proof-penalty", fmt.Sprintf("height %d: node %s penalised to %s (minimum %d): jailed=%v queued-to-unstake=%v", h, servicer, nvz.StakedTokens, minStake, nvz.Jailed, va.Waiting[servicer]))
+				}
+			}
+			if removed.Equal(pv.StakedTokens) {
+				s.res.Probe("penalty_consumed_whole_stake")
+			}
+		}
+	}
 	if forged != "" {
 		s.res.Probe("forged_proof_delivered")
 		s.res.Case("forged-proof/" + forged)
@@ -916,13 +1064,13 @@ func (s *Sim) forgePending(mut string, from int) {
 			continue
 		}
 		priv := KeyFor(s.cfg.KeySeed, idx)
-		s.entropy++
-		signBytes, serr := auth.StdSignBytes(ChainID, s.entropy, st.Fee, &m, st.Memo)
+		s.relayEntropy++ // (a counter that advances at execution time, in generation and in replay alike)
+		signBytes, serr := auth.StdSignBytes(ChainID, s.relayEntropy, st.Fee, &m, st.Memo)
 		if serr != nil {
 			continue
 		}
 		sig, _ := priv.Sign(signBytes)
-		tx := authTypes.NewTx(&m, st.Fee, authTypes.StdSignature{Signature: sig, PublicKey: priv.PublicKey()}, st.Memo, s.entropy)
+		tx := authTypes.NewTx(&m, st.Fee, authTypes.StdSignature{Signature: sig, PublicKey: priv.PublicKey()}, st.Memo, s.relayEntropy)
 		bz, eerr := auth.DefaultTxEncoder(app.Codec())(tx, -1)
 		if eerr != nil {
 			continue
